@@ -6,14 +6,15 @@ M    every matrix over {0, 1, 2.5} of every shape of the tier, encoded in every 
      input form (FORMS below); every form must construct, hold exactly the described values
      (shape, ids, `matrix_data.toarray()`, `get_value_by_ids` of every cell against a plain
      list model) and all forms must be pairwise `==`.
-X    every sparsity mask of every shape x every input form x every malformation (duplicate id
+X    every sparsity mask of every shape (quick tier: five named masks for the 6-cell shapes)
+     x every input form x every malformation (duplicate id
      at every pair of positions of either axis, ids one too few / one too many per axis,
      metadata one too short / one too long, a non-mapping at every metadata position): each
      must raise `biom.exception.TableException` and yield no object.  DESIGN section 5 scope
      note: the id-count clause is demanded for shape-carrying forms only; for coordinate forms
      (triples, coordinate dict) the check demands only that no table is produced when a
      listed coordinate falls outside the id counts.
-ADJ  every multiset of <= 4 adjacency records over 2 observation x 2 sample ids x values
+ADJ  every multiset of <= 4 (quick tier: <= 3) adjacency records over 2 observation x 2 sample ids x values
      {1, 2.5, '1e3'} x {header line, none} x {list, list with terminators, string, string with
      final newline, StringIO, real file handle} x {sorted, reversed record order}.
 UC   every sequence of <= 4 uc records over {S seed A, S seed B, 4 H (2 samples x 2 seeds), L,
@@ -39,7 +40,7 @@ from ..core import h64, vacuity
 LEVEL = 'model_checking'
 RULE = ('M: every matrix over {0,1,2.5} of every tier shape x every applicable input form, all forms '
         'verified against a dense list model and pairwise ==; X: every mask x every form x every '
-        'malformation; ADJ: every multiset of <=4 records x header x container x order; UC: every '
+        'malformation; ADJ: every multiset of <=4 (quick: <=3) records x header x container x order; UC: every '
         'sequence of <=4 records x entry point.  A case is non-trivial when the matrix / record set '
         'has at least one non-zero cell (M, ADJ, UC) - every X case is non-trivial; distinct by case spec')
 
@@ -243,16 +244,35 @@ def m_shapes(tier):
     return list(D.shapes(tier))            # quick: up to 2x3 / 3x2; thorough adds 1x3, 3x1, 3x3
 
 
+def x_masks(tier, shape):
+    """sparsity masks of product X: all of them, except that the quick tier cuts this factor for
+    the 6-cell shapes to five named masks (empty, full, last column empty, last row empty,
+    checkerboard)"""
+    N, M = shape
+    n = N * M
+    if tier != 'quick' or n <= 4:
+        return D.masks(shape)
+    full = (1 << n) - 1
+    lastcol = sum(1 << (i * M + M - 1) for i in range(N))
+    lastrow = sum(1 << ((N - 1) * M + j) for j in range(M))
+    checker = sum(1 << (i * M + j) for i in range(N) for j in range(M) if (i + j) % 2 == 0)
+    return sorted({0, full, full & ~lastcol, full & ~lastrow, checker})
+
+
+def adj_max(tier):
+    return 3 if tier == 'quick' else 4
+
+
 def cases(tier, seed):
     out = []
     for shape in m_shapes(tier):
         for code in range(3 ** (shape[0] * shape[1])):
             out.append({'prod': 'M', 'shape': list(shape), 'code': code})
     for shape in m_shapes(tier):
-        for mask in D.masks(shape):
+        for mask in x_masks(tier, shape):
             for form in FORMS:
                 out.append({'prod': 'X', 'shape': list(shape), 'mask': mask, 'form': form})
-    for k in range(1, 5):
+    for k in range(1, adj_max(tier) + 1):
         for ms in itertools.combinations_with_replacement(range(len(ADJ_RECS)), k):
             out.append({'prod': 'ADJ', 'recs': list(ms)})
     cb_len = 2 if tier == 'quick' else 3
@@ -661,10 +681,13 @@ def run(run):
               'form_applicability': 'int/bool/uint forms: matrices over {0,1}; dense_1d: one observation; '
                                     'rowdicts_sparse: last column not all-zero (otherwise the narrower '
                                     'input must be refused)'},
-        'X': {'shapes': m_shapes(run.tier), 'masks': 'all 2^(N*M), cell values from [1, 2.5]', 'forms': FORMS,
+        'X': {'shapes': m_shapes(run.tier),
+              'masks': {'%dx%d' % sh: x_masks(run.tier, sh) if len(x_masks(run.tier, sh)) < 2 ** (sh[0] * sh[1])
+                        else 'all %d' % 2 ** (sh[0] * sh[1]) for sh in m_shapes(run.tier)},
+              'mask_cell_values': [1.0, 2.5], 'forms': FORMS,
               'malformations': kinds, 'metadata_backgrounds': ['dicts', 'nulls', 'empties'],
               'nonmapping_values': [repr(v) for _, v in NONMAPPINGS]},
-        'ADJ': {'records': ['%s %s %s' % r for r in ADJ_RECS], 'multiset_size': '1..4',
+        'ADJ': {'records': ['%s %s %s' % r for r in ADJ_RECS], 'multiset_size': '1..%d' % adj_max(run.tier),
                 'header': [True, False], 'containers': ADJ_CONTAINERS, 'orders': ['sorted', 'reversed']},
         'UC': {'menu': UC_KIND, 'sequence_length': '1..4',
                'routes': ['parse_uc list / list with terminators / handle', '_from_uc without map',
